@@ -489,6 +489,11 @@ impl<N: Num> Num for Jet<N> {
                     b("+", &t1, &t2)
                 }
             }
+            // piecewise expressions of the value type: differentiate branch-wise, the condition
+            // keeps its value
+            "if" => b("if", &x.d, &y.v),
+            "else" => b("else", &x.d, &y.d),
+            "<" | ">" | "<=" | ">=" | "==" | "!=" => zero,
             // operators without a rule: derivative is only meaningful when both operands are constant
             _ => {
                 if xz && yz {
